@@ -90,6 +90,14 @@ HAND_TEXTS = [
     ("two-lifetimes-and-a-bystander", "#[derive(::educe::Educe)]\n#[educe(Debug, Clone, PartialEq, Hash, Default)]\n"
                                       "pub struct Ty<'a, 'b, T, U> {\n    pub m: ::core::marker::PhantomData<U>,\n    pub a: ::core::option::Option<&'a T>,\n"
                                       "    pub b: ::core::option::Option<&'b T>,\n    pub n: ::core::option::Option<U>,\n}\n"),
+    # legal oddities of the item syntax
+    ("where-empty", "#[derive(::educe::Educe)]\n#[educe(Debug, Clone, PartialEq, Eq, PartialOrd, Ord, Hash, Default)]\npub struct Ty<T> where {\n    pub a: T,\n    pub b: u8,\n}\n"),
+    ("where-empty-tuple", "#[derive(::educe::Educe)]\n#[educe(Debug, Clone, PartialEq, Eq, PartialOrd, Ord, Hash, Default)]\npub struct Ty<T>(pub T, pub u8) where;\n"),
+    ("where-empty-enum", "#[derive(::educe::Educe)]\n#[educe(Debug, Clone, PartialEq, Eq, PartialOrd, Ord, Hash, Default)]\npub enum Ty<T> where {\n    #[educe(Default)]\n    V(T, u8),\n    W,\n}\n"),
+    ("where-empty-bound", "#[derive(::educe::Educe)]\n#[educe(Debug, Clone, PartialEq, Hash)]\npub struct Ty<'a, T> where T:, 'a:, {\n    pub a: T,\n    pub b: &'a u8,\n}\n"),
+    ("generics-empty", "#[derive(::educe::Educe)]\n#[educe(Debug, Clone, PartialEq, Eq, PartialOrd, Ord, Hash, Default)]\npub struct Ty<> {\n    pub a: u8,\n}\n"),
+    ("generics-trailing", "#[derive(::educe::Educe)]\n#[educe(Debug, Clone, PartialEq, Hash)]\npub struct Ty<T: Sized +, const N: usize,> where for<> T: Sized, {\n    pub a: [T; N],\n}\n"),
+    ("generics-paren-bound", "#[derive(::educe::Educe)]\n#[educe(Debug, Clone, PartialEq, Eq, PartialOrd, Ord, Hash, Default)]\npub enum Ty<T: (Sized)> {\n    #[educe(Default)]\n    V { a: T },\n}\n"),
     ("two-lifetimes-no-parameter", "#[derive(::educe::Educe)]\n#[educe(Debug, Clone, PartialEq, Eq, PartialOrd, Ord, Hash)]\n"
                                    "pub struct Ty<'a, 'b> {\n    pub a: &'a str,\n    pub b: &'b str,\n}\n"),
 ]
